@@ -1629,7 +1629,8 @@ class BaseLoss(object):
         dealing with estimating the initial value as well
         """
         x0 = ode_utils.check_array_type(x0)
-        self._x0 = np.copy(x0)
+        # (as floats: initial values that are estimated are written into this array)
+        self._x0 = np.array(x0, dtype=np.float64)
 
     def _setLossType(self):
         """
